@@ -260,8 +260,8 @@ static char *literal_failure_message_for(Constraint *constraint, const char *act
                      difference_index);
             snprintf(message + strlen(message), message_size - strlen(message) - 1,
                      expected_content,
-                     ((char *)actual_value)[difference_index],
-                     ((char *)constraint->expected_value.value.pointer_value)[difference_index]);
+                     ((unsigned char *)actual_value)[difference_index],
+                     ((unsigned char *)constraint->expected_value.value.pointer_value)[difference_index]);
         }
         return message;
     }
